@@ -543,6 +543,8 @@ fn differing_option(a: &QOpt, b: &QOpt) -> &'static str {
 pub const CORPUS: &[&str] = &[
     // nil / t
     "nil", "NIL", "Nil", "nilx", "xnil", "nil?", "t", "T", "tt", "ta",
+    // the same followed by a character that looks like a delimiter but continues a name in this reader
+    "t\"x\"", "t|x", "nil\"x\"", "nil|x|", "t'", "nil'", "t#", "nil#", "t,", "nil`", "t{", "nil}", "t\\", "t.", "nil.", "t:", "t?", "nil!",
     // colon keywords
     ":a", ":nil", ":t", ":!a", ":+", ":...", ":λ", ":a1", "a:", "nil:", "t:", "!a:", "+:", "...:", "λ:", ".a:", "a1:", ":a:", "::", ":", "#:a", "#:nil", "#:+", "#:a:", "#:",
     // brackets
